@@ -1,7 +1,7 @@
 #!/bin/bash
 # tools/seedcheck.sh <ID> [tier] : verify the seeded change of /tmp/seed/<ID>/out in a scratch worktree (tests, demo
 # with and without), then apply it to /repo, run ./check <ID>, and undo it.
-id=$1; tier=${2:-quick}; out=/tmp/seed/$id/out; wt=/tmp/seedv/$id
+id=$1; tier=${2:-quick}; out=${SEEDROOT:-/tmp/seed}/$id/out; wt=/tmp/seedv/$id
 [ -f $out/patch.diff ] || { echo "no patch"; exit 2; }
 rm -rf $wt; mkdir -p /tmp/seedv; git -C /repo worktree add -q --detach $wt HEAD || exit 2
 cd $wt
